@@ -6,6 +6,7 @@ verus! {
 //!include prelude/std_gaps.rs
 //!include prelude/keymap.rs
 //!include prelude/app.rs
+pub mod graph { pub use super::graph_err::GraphError; }
 pub mod log {
     use vstd::prelude::*;
     use super::*;
